@@ -742,7 +742,7 @@ func jpfSort(arguments []interface{}) (interface{}, error) {
 }
 func jpfSortBy(arguments []interface{}) (interface{}, error) {
 	intr := arguments[0].(*treeInterpreter)
-	arr := arguments[1].([]interface{})
+	arr := append([]interface{}{}, arguments[1].([]interface{})...)
 	exp := arguments[2].(expRef)
 	node := exp.ref
 	if len(arr) == 0 {
